@@ -23,7 +23,304 @@ def main():
         print("\n".join(errors))
         sys.exit(1)
 
-EXTRACTORS = []
+
+# ---------------------------------------------------------------------------
+# C12: lexer rules (crates/lexer/src/lib.rs) and syntax kinds (crates/parser/src/syntax.rs)
+
+def _rust_str_lit(text, i):
+    """parse a Rust string literal starting at text[i]; returns (value, next index)"""
+    m = re.compile(r'r(#*)"').match(text, i)
+    if m:
+        close = '"' + m.group(1)
+        j = text.index(close, m.end())
+        return text[m.end():j], j + len(close)
+    if text[i] != '"':
+        raise ValueError(f"expected a string literal at: {text[i:i+30]!r}")
+    out, j = [], i + 1
+    esc = {"n": "\n", "t": "\t", "r": "\r", "\\": "\\", '"': '"', "0": "\0", "'": "'"}
+    while text[j] != '"':
+        if text[j] == "\\":
+            if text[j + 1] not in esc:
+                raise ValueError(f"unsupported escape in Rust literal: {text[j:j+4]!r}")
+            out.append(esc[text[j + 1]]); j += 2
+        else:
+            out.append(text[j]); j += 1
+    return "".join(out), j + 1
+
+
+class _Rx:
+    """parser for the regex subset used by the lexer; lowers the way logos' Mir does
+    (x+ = x x*, x{n} = n copies, '.' = [^\\n]); anything else raises"""
+    def __init__(self, src):
+        self.s, self.i = src, 0
+    def peek(self):
+        return self.s[self.i] if self.i < len(self.s) else None
+    def parse(self):
+        r = self.alt()
+        if self.i != len(self.s):
+            raise ValueError(f"regex: unexpected {self.s[self.i:]!r} in {self.s!r}")
+        return r
+    def alt(self):
+        items = [self.concat()]
+        while self.peek() == "|":
+            self.i += 1
+            items.append(self.concat())
+        r = items[-1]
+        for it in reversed(items[:-1]):
+            r = ("alt", it, r)
+        return r
+    def concat(self):
+        items = []
+        while self.peek() is not None and self.peek() not in "|)":
+            items.append(self.repeat())
+        if not items:
+            return ("eps",)
+        r = items[-1]
+        for it in reversed(items[:-1]):
+            r = ("seq", it, r)
+        return r
+    def repeat(self):
+        a = self.atom()
+        while self.peek() is not None and self.peek() in "*+{?":
+            c = self.peek()
+            if c == "*":
+                self.i += 1; a = ("star", a)
+            elif c == "+":
+                self.i += 1; a = ("seq", a, ("star", a))
+            elif c == "{":
+                m = re.compile(r"\{(\d+)\}").match(self.s, self.i)
+                if not m or int(m.group(1)) < 1:
+                    raise ValueError(f"regex: unsupported repetition in {self.s!r}")
+                self.i = m.end()
+                n, one = int(m.group(1)), a
+                for _ in range(n - 1):
+                    a = ("seq", one, a)
+            else:
+                raise ValueError(f"regex: unsupported operator {c!r} in {self.s!r}")
+            if self.peek() == "?":
+                raise ValueError("regex: non-greedy repetition unsupported")
+        return a
+    def escape(self, in_class):
+        # self.s[self.i] == '\\'
+        c = self.s[self.i + 1]
+        if c == "x":
+            v = int(self.s[self.i + 2:self.i + 4], 16); self.i += 4; return v
+        table = {"n": 10, "t": 9, "r": 13, "\\": 92, ".": 46, '"': 34, "/": 47, "-": 45, "[": 91, "]": 93,
+                 "(": 40, ")": 41, "{": 123, "}": 125, "*": 42, "+": 43, "?": 63, "|": 124, "^": 94, "$": 36}
+        if c not in table:
+            raise ValueError(f"regex: unsupported escape \\{c} in {self.s!r}")
+        self.i += 2
+        return table[c]
+    def atom(self):
+        c = self.peek()
+        if c == "(":
+            if self.s[self.i + 1] == "?":
+                raise ValueError("regex: group flags unsupported")
+            self.i += 1
+            r = self.alt()
+            if self.peek() != ")":
+                raise ValueError(f"regex: unbalanced group in {self.s!r}")
+            self.i += 1
+            return r
+        if c == "[":
+            return self.klass()
+        if c == ".":
+            self.i += 1
+            return ("cls", True, [(10, 10)])
+        if c == "\\":
+            return ("chr", self.escape(False))
+        if c in "^$":
+            raise ValueError("regex: anchors unsupported")
+        self.i += 1
+        return ("chr", ord(c))
+    def klass(self):
+        self.i += 1
+        neg = False
+        if self.peek() == "^":
+            neg = True; self.i += 1
+        rs = []
+        def one():
+            if self.peek() == "\\":
+                return self.escape(True)
+            if self.peek() == "[":
+                raise ValueError("regex: nested classes unsupported")
+            v = ord(self.peek()); self.i += 1; return v
+        while self.peek() != "]":
+            if self.peek() is None:
+                raise ValueError(f"regex: unterminated class in {self.s!r}")
+            lo = one()
+            if self.peek() == "-" and self.s[self.i + 1] != "]":
+                self.i += 1
+                hi = one()
+                if hi < lo:
+                    raise ValueError("regex: bad range")
+                rs.append((lo, hi))
+            else:
+                rs.append((lo, lo))
+        self.i += 1
+        return ("cls", neg, rs)
+
+
+def _re_lean(r):
+    t = r[0]
+    if t == "eps":
+        return ".eps"
+    if t == "chr":
+        return f"(.chr {r[1]})"
+    if t == "cls":
+        return "(.cls %s [%s])" % ("true" if r[1] else "false", ", ".join(f"({a}, {b})" for a, b in r[2]))
+    if t == "star":
+        return f"(.star {_re_lean(r[1])})"
+    return f"(.{t} {_re_lean(r[1])} {_re_lean(r[2])})"
+
+
+def _lean_str(s):
+    out = []
+    for ch in s:
+        if ch == "\\":
+            out.append("\\\\")
+        elif ch == '"':
+            out.append('\\"')
+        elif ch == "\n":
+            out.append("\\n")
+        elif ch == "\t":
+            out.append("\\t")
+        elif ch == "\r":
+            out.append("\\r")
+        elif ord(ch) < 32 or ord(ch) == 127:
+            out.append("\\x%02x" % ord(ch))
+        else:
+            out.append(ch)
+    return '"' + "".join(out) + '"'
+
+
+def _enum_variants_with_attrs(body):
+    """[(variant, [attribute text…])] of a fieldless enum body"""
+    out, attrs, i = [], [], 0
+    while i < len(body):
+        if body[i].isspace() or body[i] == ",":
+            i += 1; continue
+        if body.startswith("//", i):          # comment between variants
+            j = body.find("\n", i)
+            i = len(body) if j < 0 else j; continue
+        if body.startswith("#[", i):
+            # attribute: scan to the matching ']' skipping string literals
+            j, depth = i + 2, 1
+            while depth:
+                if body[j] == '"' or re.compile(r'r#*"').match(body, j):
+                    _, j = _rust_str_lit(body, j); continue
+                if body[j] == "[":
+                    depth += 1
+                elif body[j] == "]":
+                    depth -= 1
+                j += 1
+            attrs.append(body[i + 2:j - 1]); i = j; continue
+        m = re.compile(r"[A-Za-z_][A-Za-z_0-9]*").match(body, i)
+        if not m:
+            raise ValueError(f"enum body: cannot parse at {body[i:i+40]!r}")
+        out.append((m.group(0), attrs)); attrs = []; i = m.end()
+    return out
+
+
+def extract_tokens():
+    lex = open(os.path.join(REPO, "crates/lexer/src/lib.rs")).read()
+    syn = open(os.path.join(REPO, "crates/parser/src/syntax.rs")).read()
+    m = re.search(r"#\[derive\(([^)]*)\)\]\s*pub enum TokenKind \{(.*?)\n\}", lex, re.S)
+    if not m or "Logos" not in m.group(1):
+        raise ValueError("lexer/src/lib.rs: `#[derive(.. Logos)] pub enum TokenKind` not found")
+    if re.search(r"#\[logos\(", lex):
+        raise ValueError("lexer/src/lib.rs: an enum-level #[logos(..)] attribute (skip/subpattern/…) appeared; the model does not know it")
+    variants = _enum_variants_with_attrs(m.group(2))
+    names = [v for v, _ in variants]
+    if len(set(names)) != len(names) or names[-2:] != ["Error", "Eof"]:
+        raise ValueError("TokenKind: expected distinct variants ending in Error, Eof")
+    literals, regexes = [], []
+    for idx, (v, attrs) in enumerate(variants):
+        if v in ("Error", "Eof"):
+            if attrs:
+                raise ValueError(f"TokenKind::{v} now has a lexer rule")
+            continue
+        if len(attrs) != 1:
+            raise ValueError(f"TokenKind::{v}: expected exactly one #[token]/#[regex] attribute, found {attrs}")
+        a = attrs[0].strip()
+        mm = re.match(r"(token|regex)\(\s*", a)
+        if not mm or not a.endswith(")"):
+            raise ValueError(f"TokenKind::{v}: unknown attribute {a!r}")
+        lit, j = _rust_str_lit(a, mm.end())
+        rest = [x.strip() for x in a[j:-1].split(",") if x.strip()]
+        prio, cb = None, None
+        for x in rest:
+            pm = re.fullmatch(r"priority\s*=\s*(\d+)", x)
+            if pm:
+                prio = int(pm.group(1))
+            elif re.fullmatch(r"[A-Za-z_][A-Za-z_0-9]*", x):
+                cb = x
+            else:
+                raise ValueError(f"TokenKind::{v}: unknown rule option {x!r}")
+        if mm.group(1) == "token":
+            if cb or prio is not None or not lit:
+                raise ValueError(f"TokenKind::{v}: #[token] with options/empty literal is not modelled")
+            literals.append((idx, v, lit))
+        else:
+            regexes.append((idx, v, lit, _Rx(lit).parse(), prio, cb))
+    cbs = sorted({r[5] for r in regexes if r[5]})
+    if cbs != ["lex_multiline_str"]:
+        raise ValueError(f"lexer callbacks changed: {cbs} (the model transcribes lex_multiline_str only)")
+    if not re.search(r"fn lex_multiline_str\(lex: &mut logos::Lexer<TokenKind>\) -> Option<\(\)>", lex):
+        raise ValueError("lex_multiline_str: signature changed")
+    if "kind: TokenKind::Error," not in lex or "if let Ok(kind) = kind" not in lex:
+        raise ValueError("Lexer::next no longer maps a logos error to TokenKind::Error")
+    tm = re.search(r"pub fn is_trivia\(self\) -> bool \{\s*matches!\(self,([^)]*)\)\s*\}", lex)
+    if not tm:
+        raise ValueError("TokenKind::is_trivia: shape changed")
+    trivia = [x.strip().replace("Self::", "") for x in tm.group(1).split("|")]
+    for t in trivia:
+        if t not in names:
+            raise ValueError(f"is_trivia mentions unknown kind {t}")
+    sm = re.search(r"#\[repr\(u16\)\]\s*pub enum MySyntaxKind \{(.*?)\n\}", syn, re.S)
+    if not sm:
+        raise ValueError("parser/src/syntax.rs: `#[repr(u16)] pub enum MySyntaxKind` not found")
+    skinds = [v for v, a in _enum_variants_with_attrs(sm.group(1))]
+    if "rowan::SyntaxKind(self as u16)" not in syn or "Self(kind as u16)" not in syn:
+        raise ValueError("syntax.rs: kinds are no longer converted by `as u16`")
+    bm = re.search(r"assert!\(raw\.0 <= MySyntaxKind::(\w+) as u16\)", syn)
+    if not bm:
+        raise ValueError("syntax.rs: kind_from_raw bound not found")
+    L = ["-- GENERATED by tools/extract.py from crates/lexer/src/lib.rs and crates/parser/src/syntax.rs; do not edit",
+         "import GomlVerif.Model.Regex",
+         "namespace Goml.Gen.Tokens",
+         "open Goml.Lex",
+         "",
+         "/-- `TokenKind` variants in declaration order; the discriminant (`kind as u16`) is the index -/",
+         "def kindNames : List String := [" + ", ".join(_lean_str(n) for n in names) + "]",
+         "",
+         "/-- `MySyntaxKind` variants in declaration order (`#[repr(u16)]`) -/",
+         "def syntaxKindNames : List String := [" + ", ".join(_lean_str(n) for n in skinds) + "]",
+         "",
+         f"/-- the variant `kind_from_raw` uses as its upper bound -/",
+         f"def kindFromRawBound : String := {_lean_str(bm.group(1))}",
+         "",
+         f"def errorKind : Nat := {names.index('Error')}",
+         f"def eofKind : Nat := {names.index('Eof')}",
+         "/-- `MySyntaxKind::TombStone as u16` (an `Open` event that was never completed) -/",
+         f"def tombStoneKind : Nat := {skinds.index('TombStone')}",
+         "/-- `TokenKind::is_trivia` -/",
+         "def triviaKinds : List Nat := [" + ", ".join(str(names.index(t)) for t in trivia) + "]",
+         "",
+         "/-- `#[token(\"…\")]` rules: (kind, literal) in declaration order -/",
+         "def literals : List (Nat × String) := ["]
+    L += ["  " + ",\n  ".join(f"({i}, {_lean_str(lit)})" for i, _, lit in literals) + "]", "",
+          "/-- `#[regex(…)]` rules in declaration order -/",
+          "def regexes : List RegexRule := ["]
+    rl = []
+    for i, v, srcs, r, prio, cb in regexes:
+        rl.append("  { kind := %d, name := %s, src := %s,\n    re := %s,\n    prio := %s, callback := %s }" % (
+            i, _lean_str(v), _lean_str(srcs), _re_lean(r),
+            "none" if prio is None else f"some {prio}", "none" if cb is None else "some " + _lean_str(cb)))
+    L += [",\n".join(rl) + "]", "", "end Goml.Gen.Tokens", ""]
+    write_if_changed("Tokens.lean", "\n".join(L))
+
+EXTRACTORS = [extract_tokens]
 
 if __name__ == "__main__":
     main()
